@@ -26,6 +26,7 @@ LEVEL = 'fault_enumeration'
 
 OLD = b'OLD-CONTENT-0123456789\n'
 OLD_MODE = 0o640
+SNAPSHOT = 'snapshot-hardlink-of-dest'
 FIRST = b'content of the first save with this saver object\n'
 BIG = 3 * 8192 + 5
 
@@ -121,6 +122,17 @@ def configs(tier):
     for c in base:
         if c['file_perms'] is None and c['body'] == 'one' and c['overwrite'] and c['dest_present']:
             out.append(dict(c, body='huge'))
+    # the destination has a second hard link (a `cp -l` snapshot): the save must still replace the *name*, never rewrite
+    # the shared inode - the snapshot keeps the previous content
+    for c in base:
+        if c['file_perms'] is None and c['body'] in ('one', 'big', 'none') and c['overwrite'] and c['dest_present']:
+            out.append(dict(c, dest_hardlinked=True))
+    # a saver whose first, explicit-form attempt was given up after a partial write (no __exit__), used again with `with`:
+    # refusing (the part file is in the way) or saving the second attempt's content are right, publishing a mixture is not
+    for c in base:
+        if c['file_perms'] is None and c['body'] in ('one', 'big') and c['overwrite']:
+            for op in (False, True):
+                out.append(dict(c, api='abandon_retry', overwrite_part=op))
     # two savers of one destination whose with-blocks overlap (the second one is refused, and retried)
     for c in base:
         if c['file_perms'] is None and c['body'] in ('one', 'big') and c['overwrite']:
@@ -164,6 +176,8 @@ class Scenario:
         st = {}
         if cfg['dest_present']:
             st[self.name] = (OLD_MODE, OLD, 0)
+        if cfg.get('dest_hardlinked') and cfg['dest_present']:
+            st[SNAPSHOT] = (OLD_MODE, OLD, 0)
         if cfg.get('part') == 'stale':
             st[self.name + '.part'] = (0o600, b'STALE-PART-FROM-AN-EARLIER-SAVE', 1)
         elif cfg.get('part') == 'hardlink':
@@ -248,6 +262,14 @@ class Scenario:
             env.decide({'name': 'checkpoint', 'key': ('enter',)})
             self.do_plan(env, saver.part_file)
             saver.__exit__(None, None, None)
+        elif self.api == 'abandon_retry':
+            saver.setup()
+            saver.part_file.write('GIVEN-UP-ATTEMPT ' if cfg['text_mode'] else b'GIVEN-UP-ATTEMPT ')
+            saver.part_file.flush()
+            env.decide({'name': 'checkpoint', 'key': ('first attempt given up',)})
+            with saver as f:
+                env.decide({'name': 'checkpoint', 'key': ('enter',)})
+                self.do_plan(env, f)
         else:                   # abandon: the caller never reaches __exit__ (an exception elsewhere, a forgotten call)
             saver.setup()
             self.do_plan(env, saver.part_file)
@@ -443,7 +465,7 @@ def check_log_order(log, sc, bad, exc=None, _second=False):
                 return check_log_order(log[i + 1:], sc, bad, exc, True)
         bad('order', 'publishing calls', 'one rename/link onto the destination per save', 0)
         return
-    if (sc.cfg.get('dest_name') or sc.cfg['body'] == 'closes') and exc is not None:
+    if (sc.cfg.get('dest_name') or sc.cfg['body'] == 'closes' or sc.api == 'abandon_retry') and exc is not None:
         # a refused save: nothing may have been published
         for ev in log:
             if ev['name'] in ('rename', 'replace', 'link') and not str(ev.get('result', '')).startswith('errno') \
@@ -549,7 +571,7 @@ def run_config(task):
             bad('normal', 'exception of an aborted body', 'SystemExit/KeyboardInterrupt propagates', repr(exc))
         if fdest != sc.old:
             bad('normal', 'destination after an aborted body', sc.old, fdest)
-    elif cfg.get('part_other_fs') or cfg.get('dest_name') or cfg['body'] == 'closes':
+    elif cfg.get('part_other_fs') or cfg.get('dest_name') or cfg['body'] == 'closes' or sc.api == 'abandon_retry':
         # a rename across file systems cannot be atomic; a 255-character name leaves no room for the part file's suffix; a
         # part file closed by the body cannot be flushed and synced any more: refusing (an exception) with the destination
         # untouched is right, so is completing the save properly - a half-way result is not
@@ -562,9 +584,17 @@ def run_config(task):
     else:
         if fdest != sc.news[0] and not (cfg.get('interleaved') and fdest in sc.news):
             bad('normal', 'destination content after normal exit', sc.news[0][:60], fdest)
-        left = sorted(k for k in final if k != sc.name)
+        left = sorted(k for k in final if k != sc.name and k != SNAPSHOT)
         if left:
             bad('normal', 'files left behind', [], left)
+    if SNAPSHOT in sc.initial:
+        # every state, crash or not: the other hard link keeps the previous content
+        for i, snap in sorted(snaps.items()) + [('end', final)]:
+            ent = snap.get(SNAPSHOT)
+            if ent is None or ent[1] != OLD:
+                bad('crash', 'another hard link of the previous file was rewritten', OLD[:30],
+                    None if ent is None else ent[1][:30], {'crash_before_point': i})
+                break
     # 1. process death at every point
     for i in range(npoints + 1):
         snap = snaps.get(i, final) if i < npoints else final
